@@ -28,6 +28,7 @@ type Engine struct {
 	usedLemmas   map[*Lemma]bool
 	tier         string // "thorough": all cases of `split` clauses; otherwise the quick sample
 	skippedCases int    // split cases left to the thorough tier
+	neverCases   int    // split cases run in no tier (outside the `thorough` list): the split is incomplete
 }
 
 func newEngine(repo string) *Engine {
@@ -214,12 +215,20 @@ func (e *Engine) verifyContract(c *Contract) *FuncResult {
 		}
 		for _, cb := range combos {
 			cname := name
-			skip := false
+			skip, never := false, false
 			for _, cs := range cb {
 				cname += "{" + cs.String() + "}"
 				if e.tier != "thorough" && !cs.inQuick() {
 					skip = true
 				}
+				if !cs.inThorough() {
+					skip = true
+					never = true
+				}
+			}
+			if never {
+				e.neverCases++
+				continue
 			}
 			if skip {
 				e.skippedCases++
@@ -266,6 +275,25 @@ func (c splitCase) inQuick() bool {
 	}
 	if c.kind != "eq" {
 		return false
+	}
+	for _, q := range c.sp.Quick {
+		if q == c.val {
+			return true
+		}
+	}
+	return false
+}
+
+// inThorough: cases run in the thorough tier (all of them when no `thorough` list is given;
+// the out-of-range cases always).
+func (c splitCase) inThorough() bool {
+	if len(c.sp.Thorough) == 0 || c.kind != "eq" {
+		return true
+	}
+	for _, r := range c.sp.Thorough {
+		if r[0] <= c.val && c.val <= r[1] {
+			return true
+		}
 	}
 	for _, q := range c.sp.Quick {
 		if q == c.val {
